@@ -44,6 +44,7 @@ fn compare_transports(text: &str) {
     }
     assert!(round < 6);
     kani::cover!(round >= 1, "script with at least one command");
+    let _ = round;
     core::mem::forget(arg);
     core::mem::forget(sin);
 }
@@ -93,15 +94,20 @@ transport!(c14_transport_len3, 3usize, 18);
 #[kani::unwind(7)]
 #[kani::stub(Stdin::read_byte, read_byte_from_queue)]
 fn c14_transport_multibyte() {
-    let c: u8 = kani::any();
-    kani::assume(c == b'a' || c == b';' || c == b'\n');
-    let first: bool = kani::any();
-    let buf: [u8; 4] = if first { [c, 0xC3, 0xA9, 0] } else { [0xC3, 0xA9, c, 0] };
-    unsafe {
-        BYTES = buf;
-        LEN = 3;
-        POS = 0;
+    // e-acute (2 bytes) before / after each of {a, ';', newline}: enumerated concretely
+    let cs = [b'a', b';', b'\n'];
+    let mut k = 0;
+    while k < 6 {
+        let c = cs[k % 3];
+        let buf: [u8; 4] = if k < 3 { [c, 0xC3, 0xA9, 0] } else { [0xC3, 0xA9, c, 0] };
+        unsafe {
+            BYTES = buf;
+            LEN = 3;
+            POS = 0;
+        }
+        let text: &str = unsafe { core::str::from_utf8_unchecked(&*core::ptr::addr_of!(BYTES).cast::<[u8; 4]>()).get_unchecked(..3) };
+        compare_transports(text);
+        k += 1;
     }
-    let text: &str = unsafe { core::str::from_utf8_unchecked(&*core::ptr::addr_of!(BYTES).cast::<[u8; 4]>()).get_unchecked(..3) };
     compare_transports(text);
 }
